@@ -15,7 +15,8 @@ class Violation(Exception):
 
 
 class Part:
-    def __init__(self, name, run, strategy=None, enum=None, budget=None, cap_s=None, doc="", presharded=False):
+    def __init__(self, name, run, strategy=None, enum=None, budget=None, cap_s=None, doc="", presharded=False, replay_any=0):
+        self.replay_any = replay_any  # schedule-dependent part: a failing case must fail again within n re-runs
         self.presharded = presharded  # enum(ctx) already yields only this worker's share (uses ctx.widx/ctx.nworkers)
         self.name = name
         self.run = run                # run(case, ctx) -> info dict | None ; raises Violation
@@ -415,6 +416,9 @@ def _main(a, mod, name, tier, seed, jobs, scratch, t_start):
         # that quantify over OS schedules (C11) declare REPLAY_ANY = n: the case is
         # re-run up to n times and must fail again at least once.
         any_n = getattr(mod, "REPLAY_ANY", 0)
+        for p_ in mod.parts(tier):
+            if p_.name == fl["part"] and p_.replay_any:
+                any_n = p_.replay_any
         if any_n:
             fails = []
             for _ in range(any_n):
